@@ -117,10 +117,23 @@ def merge_counts(dst: dict, src: dict) -> None:
         dst[k] = dst.get(k, 0) + v
 
 
+def case_key(d: dict) -> str:
+    """Order on recorded first cases that does not depend on the order in which TLC's workers printed the
+    records (nor on the order in which pool workers returned)."""
+    return json.dumps({k: d.get(k) for k in ("p", "salt", "mutation", "index", "rng_seed", "seed_proto_hex", "mutator", "cfg")}, sort_keys=True, default=str)
+
+
 def merge_cases(dst: dict, src: dict) -> None:
+    """Union of signature -> first case; counts add up; the recorded case is the smallest one (deterministic)."""
     for sig, d in src.items():
         if sig in dst:
-            dst[sig]["count"] += d.get("count", 1)
+            n = dst[sig].get("count", 1) + d.get("count", 1)
+            eps = list(dict.fromkeys(dst[sig].get("entry_points", []) + d.get("entry_points", [])))
+            if case_key(d) < case_key(dst[sig]):
+                dst[sig] = d
+            dst[sig]["count"] = n
+            if eps:
+                dst[sig]["entry_points"] = sorted(eps)
         else:
             dst[sig] = d
 
